@@ -79,6 +79,7 @@ macro_rules! dispatch {
             "C10" => $f::<crate::c10::C10>($($arg),*),
             "C12" => $f::<crate::c12::C12>($($arg),*),
             "C16" => $f::<crate::c16::C16>($($arg),*),
+            "C20" => $f::<crate::c20::C20>($($arg),*),
             other => {
                 eprintln!("unknown or unclaimed property id '{}'", other);
                 2
@@ -87,7 +88,7 @@ macro_rules! dispatch {
     };
 }
 
-pub const CLAIMED: &[&str] = &["C10", "C12", "C16"];
+pub const CLAIMED: &[&str] = &["C10", "C12", "C16", "C20"];
 
 // ------------------------------------------------------------------------------- worker
 
@@ -544,6 +545,11 @@ fn check_impl<S: Scenario>(id: &str, tier: Tier) -> i32 {
         }
     }
     unknown.sort_by_key(|f| f.unit);
+    if std::env::var("VERIF_LIST_ALL").is_ok() {
+        for f in &unknown {
+            println!("  [{}x, first at unit {}] {} :: {}", f.count, f.unit, f.signature, f.message);
+        }
+    }
 
     let wall = t0.elapsed().as_secs_f64();
     let mut faults: BTreeMap<String, u64> = BTreeMap::new();
